@@ -25,6 +25,7 @@ type Info struct {
 	CanEmbed bool
 	Slow     bool // GT-like: exponentiations ~1ms
 	ScalarOnly bool // no points (mod.Int over a bare modulus)
+	UnreducedOK bool // Scalar.UnmarshalBinary accepts unreduced values and keeps them as they are (Ed25519 limb scalar)
 	Suite    pairing.Suite
 	SuiteKey string
 }
